@@ -1,5 +1,6 @@
 """Property oracles: decide, from the REAL crate's answers (plus the proved model as the reference
 decoder where the property needs one), whether a case is a concrete failing input."""
+import re
 import math
 from wire import *
 from refdec import strict_check, Walker, LayoutError
@@ -46,17 +47,65 @@ def norm_lean(line):
     return line
 
 OVERSIZE = ' oversize'
-def cmp_full(r, l): return r == l or (l.endswith(OVERSIZE) and r == l[:-len(OVERSIZE)])
-def cmp_nocost(r, l): return common.strip_cost(r)[0] == common.strip_cost(l)[0]
+# Compare modes. Each property compares the observables it is about and nothing else (DESIGN.md section 4.1):
+# an error's KIND and payload belong to C11 alone (and there only for the variants that carry a code point), the octet
+# count to C07 alone; produced bytes, decoded values and states are compared wherever they occur.
+CODE_KINDS = {'Opcode', 'RCode', 'Type', 'Class', 'QType', 'QClass', 'AFSDBSubtype', 'EDNSOptionCode', 'EcsAddressNumber',
+              'SSHFPAlgorithm', 'SSHFPType', 'AlgorithmType', 'DigestType', 'NotYetImplemented'}
+_ERR_TOK = re.compile(r'err:[^@ ]+')
+
+def drop_kind(x, keep_cost=False):
+    """an error is an error: forget its kind and payload (also inside api / label / name history lines)"""
+    x0, cost = common.strip_cost(x)
+    if x0.startswith('err'): x0 = 'err'
+    elif 'err:' in x0: x0 = _ERR_TOK.sub('err', x0)
+    if keep_cost and cost is not None: x0 += ' cost=%d' % cost
+    return x0
+
+def code_view(x):
+    """C11: value on ok; kind + code for the code-carrying error variants; any other error is just an error"""
+    x0 = common.strip_cost(x)[0]
+    if x0.startswith('err'):
+        t = x0.split(' ')
+        return x0 if len(t) > 1 and t[1] in CODE_KINDS else ('err' if len(t) > 1 and not t[1].lstrip('-').isdigit() else x0)
+    return x0
+
 def cmp_class(r, l): return r.split(' ', 1)[0] == l.split(' ', 1)[0] and not r.endswith(POST_PANIC)
-def cmp_accept(r, l):
-    if r.startswith('err') and l.startswith('err'): return True
-    return common.strip_cost(r)[0] == common.strip_cost(l)[0]
-def cmp_kind(r, l):
-    """value on ok, error KIND without payload on err, no cost"""
-    r = common.strip_cost(r)[0]; l = common.strip_cost(l)[0]
-    if r.startswith('err') and l.startswith('err'): return r.split(' ')[:2] == l.split(' ')[:2]
+def cmp_accept(r, l): return drop_kind(r) == drop_kind(l)
+def cmp_cost(r, l): return drop_kind(r, True) == drop_kind(l, True)
+def cmp_code(r, l): return code_view(r) == code_view(l)
+def cmp_rt(r, l):
+    if l.endswith(OVERSIZE):
+        # outside C02's guard (uncompressed size > 65,535): the re-encoding may or may not fit
+        return r in ('same', l[:-len(OVERSIZE)])
     return r == l
+def _det_view(x):
+    t = x.split(' ')
+    if t[0] in ('det', 'nondet'):
+        dec = next((y for y in t if y.startswith('dec=')), 'dec=?')[:6]
+        enc = next((y for y in t if y.startswith('enc=')), 'enc=?')[:6]
+        return '%s %s %s' % (t[0], dec, enc)
+    return t[0]
+def cmp_det(r, l): return _det_view(r) == _det_view(l)
+def cmp_nocost(r, l): return common.strip_cost(r)[0] == common.strip_cost(l)[0]
+def cmp_full(r, l): return r == l
+def _verdict_view(x):
+    return 'ok' if x.startswith('ok ') else drop_kind(x)
+def cmp_verdict(r, l):
+    """C08: success or error (whether the successful output honours the limits is the oracle's business, on the crate's own bytes)"""
+    return r == l or _verdict_view(r) == _verdict_view(l)
+NEWTYPE_RDATA = {17, 18, 21, 26, 33, 36, 39, 107, 64, 65}
+def _newtype_rdata(line):
+    if not line.startswith('ok '): return drop_kind(line)
+    try:
+        b = bytes.fromhex(line[3:]) if line[3:] != '-' else b''
+        w = Walker(b); w.msg()
+    except (ValueError, LayoutError, IndexError):
+        return line
+    return 'ok ' + ' '.join('%d:%s' % (ty, b[s_:e].hex()) for ty, s_, e in w.rdatas if ty in NEWTYPE_RDATA)
+def cmp_rdata(r, l):
+    """C18: the RDATA of the record types the property lists, octet for octet; the rest of the message belongs to C05/C06"""
+    return r == l or _newtype_rdata(r) == _newtype_rdata(l)
 
 # ---------------------------------------------------------------- per property
 
@@ -69,7 +118,7 @@ def o_C01(cases, rust, lean, V, wd):
 
 def o_C02(cases, rust, lean, V, wd):
     for i, (r, l) in enumerate(zip(rust, lean)):
-        if r == 'encerr Length' and l == 'encerr Length' + OVERSIZE:
+        if l.endswith(OVERSIZE) and r in ('same', l[:-len(OVERSIZE)]):
             continue      # the decoded message does not fit in 65,535 octets uncompressed (size computed by the model): outside C02's guard
         if r not in ('same', 'skip'):
             V.failing.append((i, 'decode->encode->decode is not the identity: ' + r))
@@ -248,8 +297,8 @@ def dedup_text(t):
 
 def o_C11(cases, rust, lean, V, wd):
     for i, (c, r, l) in enumerate(zip(cases, rust, lean)):
-        if r != l and not r.startswith('panic'):
-            V.failing.append((i, 'code point / flag word handled differently from the registered mapping: got "%s", registered "%s"' % (r[:80], l[:80])))
+        if not cmp_code(r, l) and not r.startswith('panic'):
+            V.failing.append((i, 'code point / flag word handled differently from the registered mapping: got "%s", registered "%s"' % (code_view(r)[:80], code_view(l)[:80])))
         if c.op.startswith('enum ') and r.startswith('ok '):
             n = c.op.split(' ')[2]
             if r.split(' ')[2] != n:
